@@ -211,6 +211,14 @@ func init() {
 			}
 			for i := 0; i < nr; i++ {
 				t := "/" + genRegexBody(g, 0) + "/"
+				switch g.Intn(10) {
+				case 0:
+					// escaped backslashes in front of an operator: escape parity decides whether "|" / "?" is an operator
+					t = "/" + regexp.QuoteMeta(Pick(g, fragPool)) + Pick(g, []string{"", `\\`, `\\\\`}) + Pick(g, []string{"|", "?", `\|`, `\?`}) + regexp.QuoteMeta(Pick(g, fragPool)) + "/"
+				case 1:
+					// top-level alternation
+					t = "/" + genRegexBody(g, 1) + "|" + genRegexBody(g, 1) + "/"
+				}
 				if g.Chance(1, 2) {
 					t += "$domain=x.org"
 					if g.Chance(1, 4) {
